@@ -2,7 +2,7 @@ SPECIFICATION Spec
 CONSTANTS
   RepAll = TRUE
   Mode = "mc"
-  MaxNodes = 8
+  MaxNodes = 6
   Enabled = {"Module", "Fn", "If", "Goto", "Block", "BinAdd", "BinBit", "Paren", "Deref", "Int", "FCall", "Un", "Len", "As", "TyPrim", "Idx"}
   FlagSets <- FlagSets_none
   VarForms <- VarForms_init
